@@ -292,6 +292,54 @@ def oracle(c, rc, out, spec):
     return viol
 
 
+def xcheck_cli(cases, real, wd, log, limit=6):
+    """sampled small cases: the Gallina program itself (no extraction, no OCaml) against the real
+    release binary"""
+    nl = vlib._coq_nlist
+    opt = lambda b: "None" if b is None else f"(Some {nl(b)})"
+    picked = []
+    for c in cases:
+        size = len(c.pf or b"") + len(c.pp or b"") + len(c.stdin) + sum(len(x) + len(n) for n, x in c.files)
+        rc, out, _ = real.get(("release", c.id), (None, b"", b""))
+        if c.id.startswith("clir") or size > 120 or rc not in (0, 1) or len(out) > 400:
+            continue
+        if len([p for p in picked if p.flags == c.flags]) >= 1 and len({x.flags for x in cases}) > len({p.flags for p in picked}):
+            continue
+        picked.append(c)
+        if len(picked) >= limit:
+            break
+    if not picked:
+        return True, "no case sampled"
+    terms = []
+    for c in picked:
+        rc, out, _ = real[("release", c.id)]
+        b = lambda x: "true" if x else "false"
+        files = "[" + "; ".join(f"({nl(os.fsencode(n))}, {nl(x)})" for n, x in c.files) + "]"
+        terms.append(f"(xc_cli {b('c' in c.flags)} {b('n' in c.flags)} {b('h' in c.flags)} {opt(c.pf)} {opt(c.pp)} "
+                     f"{nl(c.stdin if c.via_stdin else b'')} {files} {nl(out)} {rc})")
+    path = os.path.join(wd, "xcheck_cli.v")
+    with open(path, "w") as f:
+        f.write("(* written by tools/cli_check.py: sampled daacfind runs re-evaluated inside Coq *)\n"
+                "From DV Require Import Model.Base Gen.CrossCheck.\nLocal Open Scope N_scope.\n")
+        f.write("Definition xcheck_results : list bool :=\n  [" + ";\n   ".join(terms) + "].\n")
+        f.write("Eval vm_compute in xcheck_results.\n")
+    rc, out = vlib.sh(f"ulimit -s unlimited 2>/dev/null; timeout 600 coqc -noglob -Q {vlib.COQ} DV {path}", cwd=wd, timeout=650)
+    for ext in (".vo", ".vos", ".vok", ".glob"):
+        try:
+            os.remove(path[:-2] + ext)
+        except OSError:
+            pass
+    log.append(("coqc xcheck_cli.v", rc, out[-1500:]))
+    m = re.search(r"= \[([a-z; ]*)\]", " ".join(out.split()))
+    if rc != 0 or not m:
+        return False, f"coqc failed on {path}: {out[-400:]}"
+    vals = [x.strip() for x in m.group(1).split(";") if x.strip()]
+    bad = [c.id for c, v in zip(picked, vals) if v != "true"]
+    if len(vals) != len(picked) or bad:
+        return False, f"the program evaluated inside Coq differs from the real release binary on {bad or [c.id for c in picked]}"
+    return True, f"{len(picked)} runs re-evaluated inside Coq (vm_compute): " + " ".join(c.id for c in picked)
+
+
 def parse_model(text):
     res = {}
     for cid, lines in vlib.parse_obs(text).items():
@@ -381,6 +429,9 @@ def main(prop, tier, seed, replay):
             for w in oracle(c, rc, out, m):
                 viol.append({"case": c.id, "profile": prof, "what": w, "detail": err[:300].decode("utf-8", "replace")})
     by_id = {c.id: c for c in cases}
+    if ok_coq and "release" in exes and not replay:
+        okx, dx = xcheck_cli(cases, real, wd, log)
+        obligations.append(("in-Coq re-evaluation: cli_main_raw, run by vm_compute inside Coq, prints the bytes and ends with the status of the REAL release binary on sampled cases", okx, dx))
     if replay:
         for d in dis:
             print("DISAGREEMENT", json.dumps(d))
